@@ -13,8 +13,23 @@ EDITS = {
  'comments-whitespace': ('src/token.rs', [('    pub(crate) fn same_source_as(self, other: TokenInner) -> bool {', '    // two tokens belong to the same source registration\n    pub(crate) fn same_source_as(self,   other: TokenInner) -> bool {')]),
  'cvt-mode-if-chain': ('src/sys.rs', [('    match mode {\n        Mode::Edge => PollMode::Edge,\n        Mode::Level => PollMode::Level,\n        Mode::OneShot => PollMode::Oneshot,\n    }', '    if let Mode::Edge = mode {\n        PollMode::Edge\n    } else if let Mode::Level = mode {\n        PollMode::Level\n    } else {\n        PollMode::Oneshot\n    }')]),
  'timer-unregister-if-let-take': ('src/sources/timer.rs', [('        if let Some(registration) = self.registration.take() {', '        let taken = self.registration.take();\n        if let Some(registration) = taken {')]),
- 'list-get-explicit-match': ('src/list.rs', []),
- 'postaction-bitor-match-reorder': ('src/sources/mod.rs', []),
+ 'list-get-explicit-match': ('src/list.rs', [('''    pub(crate) fn get(&self, token: TokenInner) -> crate::Result<&SourceEntry<'l, Data>> {
+        let entry = self
+            .sources
+            .get(token.get_id())
+            .ok_or(crate::Error::InvalidToken)?;
+        if entry.token.same_source_as(token) {
+            Ok(entry)
+        } else {
+            Err(crate::Error::InvalidToken)
+        }
+    }''', '''    pub(crate) fn get(&self, token: TokenInner) -> crate::Result<&SourceEntry<'l, Data>> {
+        match self.sources.get(token.get_id()) {
+            Some(entry) if entry.token.same_source_as(token) => Ok(entry),
+            _ => Err(crate::Error::InvalidToken),
+        }
+    }''')]),
+ 'postaction-bitor-match-reorder': ('src/sources/mod.rs', [('        if matches!(self, x if x == rhs) {\n            self\n        } else {\n            Self::Reregister\n        }', '        if self != rhs {\n            Self::Reregister\n        } else {\n            self\n        }')]),
  'channel-early-return': ('src/sources/channel.rs', [('        if disconnected {\n            Ok(PostAction::Remove)\n        } else if clear_readiness {\n            Ok(action)\n        } else {', '        if disconnected {\n            return Ok(PostAction::Remove);\n        }\n        if clear_readiness {\n            Ok(action)\n        } else {')]),
  'ping-local-rename': ('src/sources/ping/eventfd.rs', [('                let close = (counter & INCREMENT_CLOSE) != 0;\n                let ping = (counter & (u64::MAX - 1)) != 0;\n\n                if ping {', '                let closed = (counter & INCREMENT_CLOSE) != 0;\n                let pinged = (counter & (u64::MAX - 1)) != 0;\n\n                if pinged {'), ('                if close {\n                    Ok(PostAction::Remove)', '                if closed {\n                    Ok(PostAction::Remove)')]),
  'run-loop-form': ('src/loop_logic.rs', [('        while !self.signals.stop.load(Ordering::Acquire) {\n            self.dispatch(timeout, data)?;\n            cb(data);\n        }\n        Ok(())', '        loop {\n            if self.signals.stop.load(Ordering::Acquire) {\n                break;\n            }\n            self.dispatch(timeout, data)?;\n            cb(data);\n        }\n        Ok(())')]),
@@ -39,7 +54,9 @@ EDITS = {
  'schedule-index-typed': ('src/sources/futures.rs', [('let index = active_tasks.vacant_key();', 'let index: usize = active_tasks.vacant_key();')]),
  'timeout-future-flip': ('src/sources/timer.rs', [('if Instant::now() >= deadline {\n                    return std::task::Poll::Ready(());', 'if deadline <= Instant::now() {\n                    return std::task::Poll::Ready(());')]),
  'executor-drop-comment-move': ('src/sources/futures.rs', [('        // Drain the queue in order to drop all of the runnables.\n        while self.state.incoming.try_recv().is_ok() {}', '        // Finally drain the queue: every runnable (and its future) is dropped here.\n        while self.state.incoming.try_recv().is_ok() {}')]),
- 'remove-warn-message': ('src/loop_logic.rs', []),
+ 'dispatch-let-else': ('src/loop_logic.rs', [('            if let Some(disp) = opt_disp {\n                trace!(source = reg_token.get_id(), "Dispatching events for source");', '            if let Some(disp) = opt_disp.as_ref() {\n                trace!(source = reg_token.get_id(), "Dispatching events for source");')]),
+ 'bitor-assign-eq': ('src/sources/mod.rs', [('        if *self != rhs {\n            *self = Self::Reregister;\n        }', '        if *self == rhs {\n            return;\n        }\n        *self = Self::Reregister;')]),
+ 'timer-wheel-insert-local': ('src/sources/timer.rs', []),
 }
 
 only = sys.argv[1:]
